@@ -11,6 +11,7 @@ import (
 
 	_ "panmc/checks/c02"
 	_ "panmc/checks/c10"
+	_ "panmc/checks/c11"
 )
 
 func main() {
